@@ -340,6 +340,7 @@ class YP(object):
 
     def asserta(self, term):
         '''asserta(Term) adds Term to the facts database at the beginning.'''
+        term = get_value(term)
         if isinstance(term, Functor):
             self.assert_fact(self.atom(term._name), term._args, False)
         elif isinstance(term, Atom):
@@ -348,6 +349,7 @@ class YP(object):
 
     def assertz(self, term):
         '''assertz(Term) adds Term to the facts database at the end.'''
+        term = get_value(term)
         if isinstance(term, Functor):
             self.assert_fact(self.atom(term._name), term._args)
         elif isinstance(term, Atom):
@@ -356,6 +358,7 @@ class YP(object):
 
     def retract(self, term):
         '''retract(Term) removes all dynamic facts matching Term and backtracks over identical clauses.'''
+        term = get_value(term)
         if isinstance(term, Functor):
             name = term._name
             args = term._args
@@ -378,6 +381,7 @@ class YP(object):
 
     def retractall(self, term):
         '''retractall(Term) removes all dynamic facts matching Term, without backtracking over identical clauses.'''
+        term = get_value(term)
         if isinstance(term, Functor):
             name = term._name
             args = term._args
